@@ -38,7 +38,7 @@ def run(m, chk):
         "Static discharge of structural clauses of C14: knot_clean / degree_clean repeat the tolerance-guarded removal until it is refused (shrink-until-refused loop, only ValueError swallowed), for every "
         "interior knot; clean calls both on every path; the tolerance reaches every gate through every call site (ARG-FLOW); the gate itself (C05) holds. Minimality, idempotence and uniqueness are not decided."
     )
-    chk.decides = ["ABS-INSIDE (the error matrix of a vector-valued fit is reduced over absolute values: coordinates cannot cancel)", "ARG-FLOW(clean: the rational curve is the source, the unit-weight space the target of the final fit)", "ERROR-QUADRATIC (the error handed to the gate is the whole quadratic form when the fit is constrained)", "NODES-OF-NEW (the interpolation nodes handed to update() are the knots of the new knot vector, taken after its last change)", "NONE-DEFAULT", "DEHOMOG-PAIR (points divided by a list of weights are stored with exactly those weights)", "ARG-RANGE (degree_decrease refuses no times in 1..degree before trying)", "LOOP-ACCUMULATE (the error handed to the gate is not overwritten per component in a loop)", "MEMO-KEY (no function on the path is memoised by the value of numbers / knot vectors)", "UNTIL-REFUSED", "ONLY-VALUEERROR", "ALL-KNOTS", "clean calls both", "ARG-FLOW(tolerance)", "GATE-TOL", "N", "WEIGHT-HOMOG (the fit behind every removal keeps rational control points of degree 0 in the weights)"]
+    chk.decides = ["ERROR-COVERS (the error fit_curve returns contains the quadratic form of the error matrix for every quantity the fit replaces — weighted points and weights)", "ABS-INSIDE (the error matrix of a vector-valued fit is reduced over absolute values: coordinates cannot cancel)", "ARG-FLOW(clean: the rational curve is the source, the unit-weight space the target of the final fit)", "ERROR-QUADRATIC (the error handed to the gate is the whole quadratic form when the fit is constrained)", "NODES-OF-NEW (the interpolation nodes handed to update() are the knots of the new knot vector, taken after its last change)", "NONE-DEFAULT", "DEHOMOG-PAIR (points divided by a list of weights are stored with exactly those weights)", "ARG-RANGE (degree_decrease refuses no times in 1..degree before trying)", "LOOP-ACCUMULATE (the error handed to the gate is not overwritten per component in a loop)", "MEMO-KEY (no function on the path is memoised by the value of numbers / knot vectors)", "UNTIL-REFUSED", "ONLY-VALUEERROR", "ALL-KNOTS", "clean calls both", "ARG-FLOW(tolerance)", "GATE-TOL", "N", "WEIGHT-HOMOG (the fit behind every removal keeps rational control points of degree 0 in the weights)"]
     chk.not_decided = ["minimality / uniqueness of the cleaned representation", "idempotence as values"]
     until_refused(r, chk, C + "knot_clean", "knot_remove")
     until_refused(r, chk, C + "degree_clean", "degree_decrease")
@@ -87,6 +87,9 @@ def run(m, chk):
             chk.ob("ARG-FLOW", f"{CL}: the target space of `{seg(cr.node, 40)}` is polynomial (its weights do not come from the curve's weights)", not bad, loc=r.loc(cctx, cr.node),
                    detail="" if not bad else f"{CL}: at `{seg(cr.node, 70)}` the weights of the TARGET space depend on the curve's own weights: the polynomial control polygon is fitted with the rational basis instead of the rational curve with the polynomial basis, and a genuinely rational curve whose control polygon happens to be representable loses its weights",
                    func=CL, construct="target weights of the final fit come from the curve")
+    from .extra import error_covers
+
+    error_covers(r, chk)
     from .extra import abs_inside
 
     abs_inside(r, chk, ["curves.Curve.fit_curve", "curves.Curve.clean"], floor=1)
